@@ -273,7 +273,9 @@ def handle_path_command(args: argparse.Namespace) -> None:  # noqa: PLR0912
 
     try:
         matches = path.findall(args.file)
-    except (json.JSONDecodeError, UnicodeDecodeError) as err:
+    except ValueError as err:
+        # A `JSONDecodeError`, a `UnicodeDecodeError`, or an integer with more
+        # digits than Python is willing to convert.
         if args.debug:
             raise
         sys.stderr.write(f"target document json decode error: {err}\n")
@@ -295,8 +297,11 @@ def handle_pointer_command(args: argparse.Namespace) -> None:
     if args.pointer is not None:
         pointer = args.pointer
     else:
-        # TODO: is a property with a trailing newline OK?
-        pointer = args.pointer_file.read().strip()
+        # Drop the line break that ends the file. Other trailing white space
+        # is part of the last reference token.
+        pointer = args.pointer_file.read()
+        if pointer.endswith("\n"):
+            pointer = pointer[:-1]
 
     try:
         match = jsonpath.pointer.resolve(
@@ -305,7 +310,9 @@ def handle_pointer_command(args: argparse.Namespace) -> None:
             unicode_escape=not args.no_unicode_escape,
             uri_decode=args.uri_decode,
         )
-    except (json.JSONDecodeError, UnicodeDecodeError) as err:
+    except ValueError as err:
+        # A `JSONDecodeError`, a `UnicodeDecodeError`, or an integer with more
+        # digits than Python is willing to convert.
         if args.debug:
             raise
         sys.stderr.write(f"target document json decode error: {err}\n")
@@ -324,7 +331,9 @@ def handle_patch_command(args: argparse.Namespace) -> None:
     """Handle the `patch` sub command."""
     try:
         patch = json.load(args.patch)
-    except (json.JSONDecodeError, UnicodeDecodeError) as err:
+    except ValueError as err:
+        # A `JSONDecodeError`, a `UnicodeDecodeError`, or an integer with more
+        # digits than Python is willing to convert.
         if args.debug:
             raise
         sys.stderr.write(f"patch document json decode error: {err}\n")
@@ -343,7 +352,9 @@ def handle_patch_command(args: argparse.Namespace) -> None:
             unicode_escape=not args.no_unicode_escape,
             uri_decode=args.uri_decode,
         )
-    except (json.JSONDecodeError, UnicodeDecodeError) as err:
+    except ValueError as err:
+        # A `JSONDecodeError`, a `UnicodeDecodeError`, or an integer with more
+        # digits than Python is willing to convert.
         if args.debug:
             raise
         sys.stderr.write(f"target document json decode error: {err}\n")
